@@ -33,15 +33,29 @@ class Boom(RuntimeError):
     """injected or type failure of a wrapped function"""
 
 
+MAIN_THREAD = [None]  # the thread the case runs on; wrapped functions of executor children run on helper threads
+LOCAL_CALL_HOOK = [None]  # called (tag) when a wrapped function starts on the main thread, i.e. while a local child runs
+
+
 def reset():
+    import threading
+
     CALL_LOG.clear()
     FAIL.clear()
     ATTEMPTS.clear()
+    MAIN_THREAD[0] = threading.get_ident()
+    LOCAL_CALL_HOOK[0] = None
 
 
 def _enter(tag, *args):
-    CALL_LOG.append((tag, tuple(args)))
+    import threading
+
+    if MAIN_THREAD[0] is None or threading.get_ident() == MAIN_THREAD[0]:
+        CALL_LOG.append((tag, tuple(args)))
+    # (the call of an executor child is logged when it is SUBMITTED, by the harness's executor)
     ATTEMPTS[tag] = ATTEMPTS.get(tag, 0) + 1
+    if LOCAL_CALL_HOOK[0] is not None and threading.get_ident() == MAIN_THREAD[0]:
+        LOCAL_CALL_HOOK[0](tag)
     if ATTEMPTS[tag] in FAIL.get(tag, ()):
         raise Boom(f"injected {tag}#{ATTEMPTS[tag]}")
 
